@@ -40,3 +40,10 @@ Theorem C06_gen_guards :
   filter (fun n => existsb (String.eqb n) c06_names) validate_order = c06_names.
 Proof. exact gen_c06_guards. Qed.
 Print Assumptions C06_gen_guards.
+
+(* bundle ids are collected over ALL bundles (a dictionary of the ids seen so far), not compared between neighbours *)
+Theorem C06_gen_unique_ids_statements :
+  Gen.Skeleton.check_unique_ids_shape =
+    ["seen = {}"%string;"for bundle in request.bundles: if bundle.id in seen: raise KSR_BUNDLE_UNIQUE_Violation ; seen[bundle.id] = 1"%string;"_num_bundles = len(request.bundles)"%string;"return"%string].
+Proof. exact gen_unique_ids_shape. Qed.
+Print Assumptions C06_gen_unique_ids_statements.
